@@ -1036,6 +1036,35 @@ def create_diagram_smoke(ctx, cases):
                               h.count('class="railroad-heading"'), len(ds), c["label"]), {"kind": "case", "case": c})
 
 
+def many_names_oracle(ctx):
+    """more distinct diagram names than any small cache holds (the bookmark of a name must be the same every time it is asked for):
+    140 named rules, each referenced twice; implementation-side oracle only (links resolve, bookmarks distinct, anchors present)"""
+    n = 140
+    spec = [dict(op="Forward", body=None, name="rule%d" % i) for i in range(n)]
+    for i in range(n):
+        spec.append(L("k%d" % i))
+        lit = len(spec) - 1
+        nxt = (i + 1) % n
+        if i % 7 == 0:                   # every 7th rule refers to the next one optionally, so the grammar is not one endless cycle
+            spec.append(N("Opt", nxt))
+            nxt = len(spec) - 1
+        spec.append(N("And", lit, nxt))
+        spec[i]["body"] = len(spec) - 1
+    spec.append(N("MatchFirst", *range(n)))
+    case = make_case("many-names-%d" % n, spec, len(spec) - 1, DEFAULT_OPTS, False)
+    try:
+        root, nodes, unmodelled, impl = run_case_impl(case, html=True)
+    except Exception as e:
+        ctx.violation("many-names:harness", "building the %d-rule grammar failed: %r" % (n, e), {"kind": "many-names"})
+        return
+    ctx.case("many-names", True, True)
+    for cls, detail in oracle(nodes, DEFAULT_OPTS, impl):
+        if cls in ("dangling-href", "duplicate-bookmark", "html-missing-bookmark", "duplicate-name", "html-exception", "exception"):
+            ctx.violation("many-names:" + cls, "grammar with %d named rules: %s: %s" % (n, cls, detail), {"kind": "many-names"})
+    ctx.stat("many_names_diagrams", len(impl["diagrams"]))
+
+
+
 def correspond(ctx):
     if "translator:gen_diagram" in " ".join(ctx.tie_broken):
         # the model cannot be selected; still evaluate the oracle on the implementation (search does)
@@ -1044,6 +1073,7 @@ def correspond(ctx):
     cases = all_cases(ctx, n_random, n_opts)
     res = run_cases(ctx, cases, "c20_cases")
     create_diagram_smoke(ctx, [c for c in cases if not c["label"].startswith("rnd")])
+    many_names_oracle(ctx)
     for c, nodes, impl, m, dis in res[:3]:
         ctx.sample({"grammar": c["label"], "opts": c["opts"], "impl_diagrams": [d[:3] for d in impl["diagrams"]],
                     "impl_exc": impl["exc"], "model_depth": None if m is None else m["depth"]})
@@ -1105,6 +1135,13 @@ def search(ctx, reasons):
 
 def replay(ctx, obj):
     r = obj["replay"]
+    if r.get("kind") == "many-names":
+        c2 = vlib.Ctx(PROP, "quick", 0)
+        c2.known = {}
+        many_names_oracle(c2)
+        for v in c2.violations:
+            print(v["what"])
+        return not c2.violations
     if r.get("kind") != "case":
         print("replay names a broken proof/correspondence obligation: %r" % (r,))
         return False
